@@ -110,7 +110,13 @@ func (td *UnionTypeDef) Deserialize(dr *codec.DecodingReader) (View, error) {
 	}
 	option := td.Options[selector]
 	if option == nil {
+		if scope != 1 {
+			return nil, fmt.Errorf("union None value cannot be followed by %d more bytes", scope-1)
+		}
 		return td.FromView(selector, nil)
+	}
+	if option.IsFixedByteLength() && option.TypeByteLength() != scope-1 {
+		return nil, fmt.Errorf("union value (selector %d) has fixed size %d, but scope has %d bytes", selector, option.TypeByteLength(), scope-1)
 	}
 	subView, err := option.Deserialize(dr)
 	if err != nil {
